@@ -62,10 +62,39 @@ def main():
                 case_timeout + 30, exit=True)
             try:
                 res = mod.run_case(spec, work)
-            except Exception:
+            except (MemoryError, TimeoutError) as exc:
                 res = {'violations': [],
-                       'inconclusive': 'harness error: '
-                       + traceback.format_exc()[-1500:]}
+                       'inconclusive': f'resource problem: {exc!r}'}
+            except Exception as exc:
+                tb = traceback.format_exc()
+                import errno
+                if isinstance(exc, OSError) and exc.errno in (
+                        errno.ENOSPC, errno.EMFILE, errno.ENFILE,
+                        errno.ENOMEM):
+                    res = {'violations': [],
+                           'inconclusive': f'resource problem: {exc!r}'}
+                else:
+                    # the monitor itself tripped over what the code under
+                    # test produced (a missing key, a missing file, a
+                    # malformed record ...).  On the unchanged tree this
+                    # never happens; folding it into "inconclusive" would
+                    # let a malformed output pass, so it is a violation
+                    # with the traceback as witness.
+                    frames = [ln.strip() for ln in tb.splitlines()
+                              if ln.strip().startswith('File ')]
+                    where = '?'
+                    for ln in reversed(frames):
+                        if '/verif/vp/' in ln:
+                            where = ln.split('/verif/vp/')[-1].split(
+                                '"')[0] + ':' + ln.split(' in ')[-1]
+                            break
+                    res = {'violations': [{
+                        'sig': f'{mod.PROPERTY}:monitor-exception:'
+                               f'{type(exc).__name__}@{where}',
+                        'msg': 'the monitor could not process the outputs '
+                               'of the code under test: ' + tb[-1200:]}],
+                        'nontrivial': True,
+                        'features': ['monitor-exception']}
             faulthandler.cancel_dump_traceback_later()
             res['case_id'] = spec['case_id']
             res['spec'] = spec
